@@ -52,6 +52,24 @@ def run_config(chk, tier, cfgname):
     # them are fine): nothing else can return a block
     common.confined(chk, prog, "O1-allocator-release-only-in-vtable-slot", "alloc::alloc::dealloc", sorted(set(slots.values())),
                     "the allocator's dealloc is reachable without going through the vtable's dealloc slot")
+    # Collect impls of the collector's own pointer-holding types (not the containers of C16's list): Gc, GcWeak,
+    # ZstCache, the dynamic-root tables, dyn DynCollect. If one of them under-reports (or claims NEEDS_TRACE =
+    # false while holding a pointer) a reachable value is lost without any barrier or sweep rule being broken.
+    from gcv.props import C16 as c16
+    own = 0
+    for im in prog.impls:
+        if im.get("trait") != "collect::Collect":
+            continue
+        t = prog.ty(im["self"])
+        d = t.get("def") if t.get("k") == "adt" else ("dyn" if t.get("k") == "dyn" else None)
+        if d in ("gc::Gc", "gc_weak::GcWeak", "zst_cache::ZstCache", "dyn") or (d or "").startswith("dynamic_roots::"):
+            own += 1
+            c16.check_impl(chk, prog, im, cfgname)
+    chk.floor("collector-own-collect-impls", own, 3)
+    # the event "value traced" of the mark_one table is GcPtr::trace_value: it must forward to the vtable's
+    # trace slot, whose closure calls Collect::trace of the allocated type, on every path
+    from gcv import rules_prims
+    rules_prims.check(chk, prog, which=("gc_ptr::GcPtr::trace_value",), config=cfgname)
     chk.extra["functions_analysed"] = len(prog.seed)
 
 
